@@ -74,7 +74,11 @@ func (r *sseResponder) respond(
 	}
 	respBytes, err := r.marshalResponse(resp)
 	if err != nil {
-		return err
+		// A result that cannot be encoded is an internal error of this request, not an empty answer.
+		respBytes, err = r.marshalResponse(newEncodingFailureResponse(resp, err))
+		if err != nil {
+			return err
+		}
 	}
 	return r.sendSSEEvent(w, respBytes)
 }
